@@ -584,7 +584,7 @@ pub fn property(tier: Tier) -> Property {
                     disable_compression: false,
                     exact_hint: false,
                 };
-                let call = CallCase { shape, req_msgs: vec![vec![1]], req_md: vec![], script, free_cuts: false, enc: None, fixed_chunks: false };
+                let call = CallCase { shape, req_msgs: vec![vec![1]], req_md: vec![], script, free_cuts: false, enc: None, fixed_chunks: false, repeat: false };
                 wcases.push(WireCase { call, c2s: None, s2c: Some(s2c) });
             }
         }
